@@ -121,7 +121,9 @@ def st_parse_certificate(ex, st, a, ins):
     def ok(s2):
         s2.counter += 1
         XT = ex.ir.typeid('crypto/x509.Certificate')
-        c = Ptr(s2.alloc(Lazy(XT, f'*parsedcert!{s2.counter}')))
+        nm = f'*parsedcert!{s2.counter}'
+        # crypto/x509: Certificate.Raw is the complete DER that was parsed
+        c = Ptr(s2.alloc(StructV((der if f['name'] == 'Raw' else Lazy(f['type'], nm + '.' + f['name'])) for f in ex.ir.fields(XT))))
         s2.aux.setdefault('parsed', []).append((der, c))
         return (c, nilerr())
     return fork_results(ex, st, ins, [(None, lambda s2: (NIL, mk_error(s2, z3.StringVal('parse'), 'ParseCertificate'))), (None, ok)])
